@@ -24,6 +24,13 @@ class SamplerProxy:
     def __getattr__(self, item):
         return getattr(self._inner, item)
 
+    def __setattr__(self, item, value):
+        # the proxy must be transparent: attributes the run loop sets on a sampler reach the sampler itself
+        if item in ("_inner", "_name", "_rec"):
+            object.__setattr__(self, item, value)
+        else:
+            setattr(self._inner, item, value)
+
     def sample_tree(self, tree):
         ev = {"ev": "sample_tree", "sampler": self._name}
         try:
@@ -53,11 +60,14 @@ class SamplerProxy:
 
 class ConcProxy:
     def __init__(self, inner, rec):
-        self._inner = inner
-        self._rec = rec
+        object.__setattr__(self, "_inner", inner)
+        object.__setattr__(self, "_rec", rec)
 
     def __getattr__(self, item):
         return getattr(self._inner, item)
+
+    def __setattr__(self, item, value):
+        setattr(self._inner, item, value)
 
     def sample(self, old_value, num_clusters, num_data_points):
         new = self._inner.sample(old_value, num_clusters, num_data_points)
